@@ -269,6 +269,7 @@ class QuicConn:
         self.pkt_log = []          # (is_server, kind, pn, pn_len, gen) per packet, for C15/C16 observation
         self.features = set()
         self._handshake()
+        self.app_start = len(self.datagrams)
         for st in sp["steps"]:
             self._step(st)
 
@@ -513,6 +514,19 @@ class QuicConn:
             if g <= self.gen[not d] and g in sent[d] and (g < self.gen[not d] or g in sent[not d]):
                 self.gen[d] += 1
                 self.features.add("key_update")
+            return
+        if op == "dup":
+            # the last datagram of this direction is captured a second time (duplicated on the path / seen on two interfaces): an input
+            # datagram like any other - same bytes, own capture time
+            d = bool(st["d"])
+            for j in range(len(self.datagrams) - 1, -1, -1):
+                if self.datagrams[j][0] == d and self.paths[j] == getattr(self, "path", 0):
+                    if j >= self.app_start:
+                        self.datagrams.append(self.datagrams[j])
+                        self.paths.append(self.paths[j])
+                        self.meta.append(self.meta[j])
+                        self.features.add("duplicate_datagram")
+                    break
             return
         if op == "ping":
             # a datagram that carries no stream data (PING + ACK), possibly after skipped packet numbers
